@@ -190,6 +190,8 @@ def gen_cases(ctx, avoid):
     # assorted snippets, well- and ill-typed: oracle "no panic, table total", tie with the model
     for text in faults.soup_cases(rng, n_table * 2):
         cases.append(Case(text, None, "soup"))
+    for text in faults.operator_matrix_cases():
+        cases.append(Case(text, None, "opmatrix"))
     # typed programs and their tree-level mutants
     for _ in range(n_typed):
         tree, fs = faults.typed_program(rng, avoid=avoid, max_depth=rng.choice([2, 3, 3, 4]))
